@@ -69,7 +69,8 @@ def one_case(args):
                 ok.append(value_of(case, 1))
         WORLD.reset(epoch=2)
         inner = LocalStorage(d)
-        fs = FaultyStorage(inner, at=(at if kind == 'op' else None), mode=mode or 'raise')
+        fs = FaultyStorage(inner, at=(at if kind == 'op' else None), mode=mode or 'raise',
+                           defer_open=(at if kind == 'defer' else None))
         lab = labtech.Lab(storage=fs, runner_backend='serial', notebook=False, continue_on_failure=True)
         t = mk_task(case)
         inj = None
@@ -92,16 +93,20 @@ def one_case(args):
                     outcome = ('return', t in res)
                 except BaseException as e:  # noqa
                     outcome = ('raise', f'{type(e).__name__}: {e}')
+        import gc
+        gc.collect()
         if kind == 'baseline':
-            return {'kind': 'baseline', 'ops': len(fs.trace), 'trace': [repr(x) for x in fs.trace], 'lines': inj.count,
+            return {'kind': 'baseline', 'ops': len(fs.trace), 'trace': [repr(x) for x in fs.trace], 'lines': inj.count, 'opens': fs.opens,
                     'sites': inj.sites, 'outcome': outcome}
         where = ''
         if kind == 'op':
             where = f'storage op #{at} {fs.fired} mode={mode}'
         elif kind == 'line':
             where = f'line event #{at} {inj.fired[0][1:3] if inj.fired else None}'
+        elif kind == 'defer':
+            where = f'data of open-for-write #{at} is lost at close (error surfaces only at flush/close)'
         viols = []
-        fired = (kind == 'natural') or (kind == 'op' and fs.fired is not None) or (kind == 'line' and bool(inj.fired))
+        fired = (kind == 'natural') or (kind == 'op' and fs.fired is not None) or (kind == 'line' and bool(inj.fired)) or kind == 'defer'
         if outcome[0] == 'raise':
             viols.append(('run-raised', f'run_tasks raised {outcome[1]} instead of reporting the task as failed'))
         reported_failed = (outcome == ('return', False))
@@ -142,6 +147,8 @@ def run(tier: str, seed: int) -> Result:
                     work.append((case, ow, 'op', at, m))
             for at in range(1, b['lines'] + 1):
                 work.append((case, ow, 'line', at, None))
+            for at in range(1, b['opens'] + 1):
+                work.append((case, ow, 'defer', at, None))
     for case in natural:
         for ow in (False, True):
             work.append((case, ow, 'natural', None, None))
@@ -157,7 +164,7 @@ def run(tier: str, seed: int) -> Result:
     cov = {
         'evaluations': n,
         'distinct_nontrivial': fired,
-        'rule': ('one evaluation = one real serial-backend run with exactly one injected fault (storage operation #j: open / write call / close; or the '
+        'rule': ('one evaluation = one real serial-backend run with exactly one injected fault (storage operation #j: open / write call / close; a handle whose data is lost at close; or the '
                  'k-th executed line of cache.py/storage.py/serialization.py inside BaseCache.save) or a result that cannot be serialised (fails before / after one / '
                  'after many frames); x {PickleCache, JSON cache} x {small, multi-frame} x {first save, overwrite via bust_cache}; followed by the recovery '
                  'oracle on a fresh Lab (is_cached, cached_tasks, run_tasks); distinct_nontrivial = injections that actually fired'),
